@@ -130,10 +130,9 @@ pub fn run_batch(args: BatchArgs) -> i32 {
         if case.actors > 1 {
             b.res.counters.inc("fault.multi_actor_run");
         }
-        let fkey = case.fns.iter().map(|f| f.to_string()).collect::<Vec<_>>().join(",");
         for c in &ex.classes {
-            if !(c.starts_with("call:miss:stored:rm0")) {
-                b.res.distinct.insert(hash_str(&format!("{fkey}|{c}")));
+            if !c.contains(":call:miss:stored:rm0") {
+                b.res.distinct.insert(hash_str(c));
             }
         }
         for s in &ex.states {
@@ -145,14 +144,11 @@ pub fn run_batch(args: BatchArgs) -> i32 {
         }
         if let Some((i, c)) = ex.deviation {
             if c.owned_by(&prop) {
-                let min = minimise(&case, &prop, &c.name);
-                let (clause, at) = match exec(&min, None).deviation {
-                    Some((j, c2)) => (c2, j),
-                    None => (c.clone(), i),
-                };
-                let sig = signature(&min, &clause, at);
-                let fns: Vec<String> = min.fns.iter().map(|f| format!("{} #[{}]", spec(*f).fn_name, spec(*f).attrs)).collect();
-                let stop = b.violation(&clause, sig, seed, serde_json::json!({"l2": min, "functions": fns, "original_ops": case.ops.len(), "failed_at": i}));
+                let (seq, clause, at) = reproduce_and_minimise(&args, &case, run, &prop, &c, i);
+                let last = seq.last().expect("case");
+                let sig = signature(last, &clause, at);
+                let fns: Vec<String> = last.fns.iter().map(|f| format!("{} #[{}]", spec(*f).fn_name, spec(*f).attrs)).collect();
+                let stop = b.violation(&clause, sig, seed, serde_json::json!({"l2_seq": seq, "functions": fns, "original_ops": case.ops.len(), "failed_at": at}));
                 if stop {
                     break;
                 }
@@ -165,21 +161,137 @@ pub fn run_batch(args: BatchArgs) -> i32 {
     b.finish()
 }
 
-pub fn replay(rp: &Replay, path: &str) -> i32 {
-    let case: Case2 = serde_json::from_value(rp.case["l2"].clone()).expect("case");
+/// Executes a list of cases in order in this process; the verdict is that of the last one.
+fn exec_seq(seq: &[Case2], mut log: Option<&mut Vec<String>>) -> Exec2 {
+    let mut last = Exec2::default();
+    for (n, c) in seq.iter().enumerate() {
+        if let Some(l) = log.as_deref_mut() {
+            l.push(format!("--- case {} of {}", n + 1, seq.len()));
+        }
+        last = exec(c, log.as_deref_mut());
+    }
+    last
+}
+
+/// Evaluates a candidate in a FRESH process (statics of macro-generated caches cannot be reset
+/// completely from outside, so a process that has run other cases is not a clean slate).
+fn child_fails(args: &BatchArgs, seq: &[Case2], prop: &str, clause: &str) -> bool {
+    let dir = args.replay_dir.join("tmp");
+    std::fs::create_dir_all(&dir).ok();
+    let path = dir.join(format!("cand-{}-{}.json", std::process::id(), prop));
+    let rp = Replay {
+        property: prop.to_string(),
+        clause: clause.to_string(),
+        signature: String::new(),
+        detail: String::new(),
+        engine: "l2".to_string(),
+        run_seed: 0,
+        case: serde_json::json!({ "l2_seq": seq }),
+    };
+    std::fs::write(&path, serde_json::to_string(&rp).unwrap()).expect("write candidate");
+    let st = std::process::Command::new(std::env::current_exe().expect("exe"))
+        .arg("replay")
+        .arg(&path)
+        .arg("--quiet")
+        .stdout(std::process::Stdio::null())
+        .stderr(std::process::Stdio::null())
+        .status();
+    let _ = std::fs::remove_file(&path);
+    matches!(st.map(|s| s.code()), Ok(Some(1)))
+}
+
+/// Turns a deviation seen in this (possibly no longer pristine) process into a case list that
+/// fails the same way in a fresh process, as small as the budget allows.
+fn reproduce_and_minimise(args: &BatchArgs, case: &Case2, run: u64, prop: &str, c: &Clause, at: usize) -> (Vec<Case2>, Clause, usize) {
+    let clause = c.name.clone();
+    // 1. fast path: minimise in-process, confirm in a child
+    let min = minimise(case, prop, &clause);
+    if child_fails(args, &[min.clone()], prop, &clause) {
+        let (c2, j) = exec(&min, None).deviation.unwrap_or((at, c.clone())).swap();
+        return (vec![min], c2, j);
+    }
+    // 2. the original case alone
+    if child_fails(args, &[case.clone()], prop, &clause) {
+        let mut best = case.clone();
+        best.ops.truncate(at + 1);
+        let base = best.clone();
+        let mut pred = |ops: &[Op2]| {
+            let mut t = base.clone();
+            t.ops = ops.to_vec();
+            child_fails(args, &[t], prop, &clause)
+        };
+        best.ops = ddmin(base.ops.clone(), &mut pred, Duration::from_secs(25));
+        let n = best.ops.len().saturating_sub(1);
+        return (vec![best], c.clone(), n);
+    }
+    // 3. the failure needs state left behind by earlier runs of this batch: replay the prefix
+    let mut seq: Vec<Case2> = (args.start..run).map(|r| gen_case2(prop, args.run_seed(r), r)).collect();
+    let mut last = case.clone();
+    last.ops.truncate(at + 1);
+    seq.push(last);
+    if !child_fails(args, &seq, prop, &clause) {
+        // cannot be reproduced from the seeds in a fresh process: report it unminimised
+        return (seq, Clause::new(&clause, &[prop], format!("NOT REPRODUCIBLE IN A FRESH PROCESS: {}", c.detail)), at);
+    }
+    let tail = seq.pop().unwrap();
+    let mut pred = |prefix: &[Case2]| {
+        let mut t = prefix.to_vec();
+        t.push(tail.clone());
+        child_fails(args, &t, prop, &clause)
+    };
+    let mut prefix = if seq.len() > 1 { ddmin(seq.clone(), &mut pred, Duration::from_secs(40)) } else { seq.clone() };
+    if prefix.len() == 1 && pred(&[]) {
+        prefix.clear();
+    }
+    // shrink the operations of the remaining cases (last first)
+    let mut all = prefix;
+    all.push(tail);
+    for idx in (0..all.len()).rev() {
+        let base = all.clone();
+        let mut pred = |ops: &[Op2]| {
+            let mut t = base.clone();
+            t[idx].ops = ops.to_vec();
+            child_fails(args, &t, prop, &clause)
+        };
+        let ops = ddmin(base[idx].ops.clone(), &mut pred, Duration::from_secs(15));
+        all[idx].ops = ops;
+    }
+    let n = all.last().map_or(0, |c| c.ops.len().saturating_sub(1));
+    (all, c.clone(), n)
+}
+
+trait Swap<A, B> {
+    fn swap(self) -> (B, A);
+}
+impl<A, B> Swap<A, B> for (A, B) {
+    fn swap(self) -> (B, A) {
+        (self.1, self.0)
+    }
+}
+
+pub fn replay(rp: &Replay, path: &str, quiet: bool) -> i32 {
+    let seq: Vec<Case2> = if rp.case.get("l2_seq").is_some() {
+        serde_json::from_value(rp.case["l2_seq"].clone()).expect("case list")
+    } else {
+        vec![serde_json::from_value(rp.case["l2"].clone()).expect("case")]
+    };
     let mut log = Vec::new();
-    let ex = exec(&case, Some(&mut log));
+    let ex = exec_seq(&seq, if quiet { None } else { Some(&mut log) });
     for l in &log {
         println!("  {l}");
     }
     match ex.deviation {
         Some((i, c)) if c.name == rp.clause && c.owned_by(&rp.property) => {
-            println!("VIOLATION property={} replay={}", rp.property, path);
-            println!("  clause={} at operation {i}: {}", c.name, c.detail);
+            if !quiet {
+                println!("VIOLATION property={} replay={}", rp.property, path);
+                println!("  clause={} at operation {i}: {}", c.name, c.detail);
+            }
             1
         }
         other => {
-            println!("NOT-REPRODUCED property={} expected clause {} got {:?}", rp.property, rp.clause, other.map(|x| x.1.name));
+            if !quiet {
+                println!("NOT-REPRODUCED property={} expected clause {} got {:?}", rp.property, rp.clause, other.map(|x| x.1.name));
+            }
             3
         }
     }
